@@ -291,8 +291,8 @@ Definition regex_opts := mkOpt false false true.    (* parse_options{}.set_skip_
 
 (* parse a pattern with a given grammar/table (the table comes from LRGen.gen on regex_raw_grammar) *)
 Definition parse_pattern_with (g : grammar) (tbl : table) (pat : list nat) : option regex :=
-  match fst (run rval unit g tbl regex_opts pat None regex_lexer (regex_term_f pat) (fun _ => VTok) regex_rule_f
-                 (10 * length pat + 20) tt) with
+  match fst (fst (run rval unit g tbl regex_opts pat None regex_lexer (regex_term_f pat) (fun _ => VTok) regex_rule_f
+                      (10 * length pat + 20) tt)) with
   | Accept (VRe r) => Some r
   | _ => None
   end.
